@@ -16,9 +16,23 @@ def base_problem_graph():
     return g
 
 
+def two_connection_choices_graph():
+    """Two independent connection choices with two valid sets each (the instance cache for the second one must depend
+    on what was decoded for the first)."""
+    g = empty(9)
+    g['der'] = [[1, 2], [1, 3], [1, 4], [1, 5], [1, 6], [1, 7]]
+    g['ch'] = [{'origin': 1, 'opts': [8, 9]}]
+    for i, nd in ((2, node('conn', dl=[1])), (3, node('conn', dmin=0, dmax=1)), (4, node('conn', dmin=0, dmax=1)),
+                  (5, node('conn', dl=[1])), (6, node('conn', dmin=0, dmax=1)), (7, node('conn', dmin=0, dmax=1))):
+        g['nodes'][i-1] = nd
+    g['cc'] = [{'src': [2], 'tgt': [3, 4], 'excl': []}, {'src': [5], 'tgt': [6, 7], 'excl': []}]
+    g['feat'] = ['hist_two_connection_choices']
+    return g
+
+
 def corpus(ctx):
     rng = ctx.rng('hist')
-    gs = [base_problem_graph()]
+    gs = [base_problem_graph(), two_connection_choices_graph()]
     want = 24 if ctx.quick else 120          # candidates; run() keeps the first ones that yield a suitable problem
     tries = 0
     while len(gs) < want and tries < 4000:
